@@ -106,6 +106,7 @@ fn main() {
             std::process::exit(2);
         }
         ctx.replay = Some(rf);
+        ctx.replay_path = Some(p.clone());
     }
     if !mcmc_verif::props::run(&id, &mut ctx) {
         eprintln!("unknown property id {id}");
